@@ -53,6 +53,10 @@ def cases(tier, seed):
     for i, (lab, _) in enumerate(FIELD_ALPHA):
         out.append({"id": f"discrete-first={lab}", "kind": "disc", "first_i": i, "maxf": 3 if tier == "quick" else 4})
     out.append({"id": "discrete-non-dataclass", "kind": "nondc"})
+    # size sweep: EVERY n_points from 2 to 64 (quick) / 256 (thorough) x every ordered pair of finite
+    # bounds (incl. non-dyadic ones); end points exact, shape, monotonicity, spacing
+    for cls in ("LinspaceGrid", "LogspaceGrid"):
+        out.append({"id": f"{cls}-size-sweep", "kind": "sweep", "cls": cls, "nmax": 64 if tier == "quick" else 256})
     return out
 
 
@@ -259,5 +263,49 @@ def _run_nondc(case):
     return outcome(status="violation" if viols else "ok", violations=viols[:1], states=cnt, transitions=cnt, traces=0, digest=digest("nondc", cnt))
 
 
+SWEEP_BOUNDS = [-2, -1.0, -1 / 3, 0, 0.1, 0.5, 1, 1.5, 3.3, 10, 1e6]
+
+
+def _run_sweep(case):
+    import lcm.grids as G
+
+    cls = getattr(G, case["cls"])
+    log = case["cls"] == "LogspaceGrid"
+    viols, cnt, dig = [], 0, []
+    bounds = [b for b in SWEEP_BOUNDS if b > 0] if log else SWEEP_BOUNDS
+    for start, stop in itertools.combinations(bounds, 2):
+        for n in range(2, case["nmax"] + 1):
+            cnt += 1
+            desc = f"{case['cls']}(start={start!r}, stop={stop!r}, n_points={n})"
+            try:
+                arr = np.asarray(cls(start=start, stop=stop, n_points=n).to_jax()).astype(np.float64)
+            except Exception as e:
+                if not viols:
+                    viols.append(violation("reject-or-materialise", "size-sweep", "EXC:" + type(e).__name__, f"{desc}: raised {type(e).__name__}: {e}"))
+                continue
+            problems = []
+            fs, ft = float(start), float(stop)
+            if arr.shape != (n,):
+                problems.append(f"shape {arr.shape} != ({n},)")
+            elif not np.isfinite(arr).all():
+                problems.append("non-finite values")
+            else:
+                if not (np.diff(arr) > 0).all():
+                    problems.append("not strictly increasing")
+                if not (abs(arr[0] - fs) <= 1e-12 * abs(fs) if log else arr[0] == fs):
+                    problems.append(f"first element {arr[0]!r} != start {fs!r}")
+                if not (abs(arr[-1] - ft) <= 1e-12 * abs(ft) if log else arr[-1] == ft):
+                    problems.append(f"last element {arr[-1]!r} != stop {ft!r}")
+                sc = np.log(arr) if log else arr
+                ref = np.linspace(np.log(fs) if log else fs, np.log(ft) if log else ft, n)
+                if not np.all(np.abs(sc - ref) <= 1e-9 * (1 + np.abs(ref).max())):
+                    problems.append("nodes differ from the equally spaced reference")
+            if n in (2, 3, 50, case["nmax"]):
+                dig.append(arr)
+            if problems and not viols:
+                viols.append(violation("reject-or-materialise", "size-sweep", "VALUE", f"{desc}: " + "; ".join(problems)))
+    return outcome(status="violation" if viols else "ok", violations=viols, states=cnt, transitions=cnt, traces=cnt, digest=digest(dig), counters={"accepted": cnt})
+
+
 def run_case(case):
-    return {"cont": _run_cont, "disc": _run_disc, "nondc": _run_nondc}[case["kind"]](case)
+    return {"cont": _run_cont, "disc": _run_disc, "nondc": _run_nondc, "sweep": _run_sweep}[case["kind"]](case)
